@@ -16,9 +16,18 @@ func New[K comparable, V any]() *SyncMap[K, V] {
 	}
 }
 
+// Keys walks a snapshot of the keys taken under the lock: the loop body may call
+// Set and Delete, and other goroutines may do so at the same time.
 func (s *SyncMap[K, V]) Keys() iter.Seq[K] {
 	return func(yield func(K) bool) {
+		s.mu.RLock()
+		keys := make([]K, 0, len(s.ma))
 		for k := range s.ma {
+			keys = append(keys, k)
+		}
+		s.mu.RUnlock()
+
+		for _, k := range keys {
 			if !yield(k) {
 				return
 			}
@@ -26,9 +35,17 @@ func (s *SyncMap[K, V]) Keys() iter.Seq[K] {
 	}
 }
 
+// Items walks a snapshot of the values taken under the lock (see Keys).
 func (s *SyncMap[K, V]) Items() iter.Seq[V] {
 	return func(yield func(V) bool) {
+		s.mu.RLock()
+		items := make([]V, 0, len(s.ma))
 		for _, v := range s.ma {
+			items = append(items, v)
+		}
+		s.mu.RUnlock()
+
+		for _, v := range items {
 			if !yield(v) {
 				return
 			}
